@@ -78,9 +78,11 @@ CLAIMED = {
  "C12": ("The unchanged code violates the property in two recorded ways (F20 tag-set TTL follows the latest add; F21 unregistered tags are not pruned): both are "
          "theorems `..._refuted` about the faithful model (witness evaluated in the kernel) and are replayed on the real code on every run, where they print "
          "KNOWN-FINDING. Proved for all states: a tagged write joins every named tag set for any TTL; delete_tags leaves no member of the tag's live set readable. "
+         "Proved for every history WITHOUT TTLs (where F20 cannot arise), every registry and order of writes: after delete_tags(t) no key whose latest write carried t "
+         "is readable (invariant: every present key is a member of the set of each tag of its latest write). "
          "The model (tags.py + Memory set commands + on-remove callback with lazy expiry made deterministic by probing) is compared with the real facade step by "
          "step; any oracle failure not containing a recorded situation (Run.C12.excl_f20 / excl_f21 on the shrunk history) is reported as a violation.",
-         "The invariant-based theorem 'complete whenever no tagged write shortens a set below a live member' is stated in DESIGN.md but not proved (partial).",
+         "Completeness with TTLs holds only when no tagged write shortens a set below a live member (F20): that conditional statement is not proved; precision fails for unregistered tags (F21). Partial.",
          "Coq proof (partial + refutation witnesses) + differential correspondence + known-finding predicates", "3/C12"),
  "C15": ("Theorems over the Gallina image of rate.py, rate_slide.py, Memory.slice_incr and circuit_breaker.py on the TTL-map spec, each as an invariant plus a "
          "one-call statement: rate_limit runs a call only if fewer than `limit` ran in the counter's current life, whose deadline is period after the first call / ttl "
